@@ -20,7 +20,7 @@ import traceback
 VERIF = os.path.dirname(os.path.dirname(os.path.abspath(__file__)))
 KNOWN_FINDINGS_FILE = os.path.join(VERIF, 'known_findings.json')
 NWORKERS = int(os.environ.get('VERIF_WORKERS', '16'))
-RUN_WALL_TIMEOUT = float(os.environ.get('VERIF_RUN_TIMEOUT', '120'))
+RUN_WALL_TIMEOUT = float(os.environ.get('VERIF_RUN_TIMEOUT', '600'))
 
 
 def derive_seed(*parts) -> int:
